@@ -8,6 +8,7 @@ CONSTANTS
   Depth = 3
   MaxObjs = 1
   Parents = {"none", "str"}
+  Fmts = {"F1", "F2"}
   Variant = "impl"
 INVARIANT ExactlyOnce
 INVARIANT RightList
